@@ -14,6 +14,16 @@
 //	              copy:k       = getSentRequest(token k)          — specification: Load(k); the copy is built field by field from
 //	                             the stored request, the client's AcquireMessage in the middle of it is a scheduling point
 //	              code:k       = getSendingMessageCode(token k)   — specification: Load(k)
+//	kind bwrecv   net/blockwise's reassembly table (an expiring cache), through overlay exports:
+//	              clos:k:id@vu = getCachedReceivedMessage for a first block with token k (sequence id, valid until vu): the
+//	                             store-if-absent of the reassembly entry      — specification: Cache.LoadOrStore
+//	              cload:k      = the look-up of processReceivedMessage       — specification: Cache.Load
+//	              sweep[:t]    = BlockWise.CheckExpirations
+//	kind obstab   net/observation's table of observations (a real Handler over a client that answers at once):
+//	              reg:k:id     = NewObservation with token k                 — specification: LoadOrStore(k,id)
+//	              cancel:k     = Cancel on the FIRST observation registered under k; the result says whether the deregistration
+//	                             request was sent, i.e. whether this call removed the observation — specification: LoadAndDelete(k)
+//	              has:k        = GetObservation                              — specification: Load(k)
 package c14
 
 import (
@@ -29,6 +39,8 @@ import (
 	"github.com/plgd-dev/go-coap/v3/message/codes"
 	"github.com/plgd-dev/go-coap/v3/message/pool"
 	"github.com/plgd-dev/go-coap/v3/net/blockwise"
+	"github.com/plgd-dev/go-coap/v3/net/observation"
+	"github.com/plgd-dev/go-coap/v3/net/responsewriter"
 	udpclient "github.com/plgd-dev/go-coap/v3/udp/client"
 )
 
@@ -39,6 +51,11 @@ func newCoopObject(kind string) object {
 	case "bwsend":
 		c := &poolClient{p: pool.New(16, 1024)}
 		return &bwsendObj{cl: c, bw: blockwise.New(c, time.Hour, func(error) {}, nil)}
+	case "bwrecv":
+		c := &poolClient{p: pool.New(16, 1024)}
+		return &bwrecvObj{cl: c, bw: blockwise.New(c, time.Hour, func(error) {}, nil), vu: map[int]int{}}
+	case "obstab":
+		return newObstabObj()
 	}
 	return newObject(kind)
 }
@@ -177,4 +194,159 @@ func (o *bwsendObj) exec(f []string, e *env) string {
 		return "v=" + strconv.Itoa(int(c))
 	}
 	panic("bad bwsend op " + strings.Join(f, ":"))
+}
+
+// ---------------------------------------------------------------- net/blockwise receivingMessagesCache
+
+type bwrecvObj struct {
+	cl *poolClient
+	bw *blockwise.BlockWise[*poolClient]
+	vu map[int]int
+}
+
+func (o *bwrecvObj) exec(f []string, e *env) string {
+	o.cl.gate = e.gate
+	switch f[0] {
+	case "clos":
+		k := atoi(f[1])
+		v := parseVal(f[2])
+		o.vu[v.id] = v.vu
+		r := pool.NewMessage(context.Background())
+		r.SetCode(codes.POST)
+		r.SetToken(tokenOf(k))
+		r.SetSequence(uint64(v.id))
+		var until time.Time
+		if v.vu != 0 {
+			until = e.base.Add(time.Duration(v.vu) * time.Second)
+		}
+		seq, err := o.bw.VerifStoreReceived(r, until)
+		if err != nil {
+			panic(err)
+		}
+		id := int(seq)
+		return fmt.Sprintf("a=%s/%v", val{id: id, vu: o.vu[id]}, id != v.id)
+	case "cload":
+		seq, ok := o.bw.VerifLoadReceived(tokenOf(atoi(f[1])))
+		if !ok {
+			return "v=nil"
+		}
+		return "v=" + val{id: int(seq), vu: o.vu[int(seq)]}.String()
+	case "sweep":
+		now := time.Now()
+		if len(f) > 1 {
+			now = e.base.Add(time.Duration(atoi(f[1])) * time.Second)
+		}
+		o.bw.CheckExpirations(now)
+		return "x=[]"
+	case "tick":
+		time.Sleep(time.Duration(atoi(f[1])) * time.Second)
+		return "-"
+	}
+	panic("bad bwrecv op " + strings.Join(f, ":"))
+}
+
+// ---------------------------------------------------------------- net/observation observations
+
+// obsClient answers every request it is asked to write at once: the registration gets its first notification before
+// WriteMessage returns (NewObservation never blocks).
+type obsClient struct {
+	ctx context.Context
+	h   *observation.Handler[*obsClient]
+}
+
+func (c *obsClient) Context() context.Context                    { return c.ctx }
+func (c *obsClient) ReleaseMessage(*pool.Message)                 {}
+func (c *obsClient) AcquireMessage(ctx context.Context) *pool.Message { return pool.NewMessage(ctx) }
+func (c *obsClient) WriteMessage(req *pool.Message) error {
+	resp := pool.NewMessage(context.Background())
+	resp.SetCode(codes.Content)
+	resp.SetToken(req.Token())
+	resp.SetObserve(2)
+	c.h.Handle(nil, resp)
+	return nil
+}
+
+type obstabObj struct {
+	cl      *obsClient
+	h       *observation.Handler[*obsClient]
+	first   map[int]*observation.Observation[*obsClient] // the first observation registered under a key
+	idOf    map[*observation.Observation[*obsClient]]int
+	deregs  int
+	lastKey int
+}
+
+func newObstabObj() *obstabObj {
+	o := &obstabObj{first: map[int]*observation.Observation[*obsClient]{}, idOf: map[*observation.Observation[*obsClient]]int{}}
+	o.cl = &obsClient{ctx: context.Background()}
+	o.h = observation.NewHandler(o.cl, func(*responsewriter.ResponseWriter[*obsClient], *pool.Message) {},
+		func(req *pool.Message) (*pool.Message, error) {
+			// the deregistration GET (Observe: 1) of Observation.Cancel
+			o.deregs++
+			resp := pool.NewMessage(context.Background())
+			resp.SetCode(codes.Content)
+			resp.SetToken(req.Token())
+			return resp, nil
+		})
+	o.cl.h = o.h
+	return o
+}
+
+func (o *obstabObj) histOp(f []string) string {
+	switch f[0] {
+	case "reg":
+		return "los:" + f[1] + ":" + f[2]
+	case "cancel":
+		return "lad:" + f[1]
+	case "has":
+		return "load:" + f[1]
+	}
+	return strings.Join(f, ":")
+}
+
+func (o *obstabObj) exec(f []string, e *env) string {
+	k := atoi(f[1])
+	switch f[0] {
+	case "reg":
+		id := atoi(f[2])
+		req := pool.NewMessage(context.Background())
+		req.SetCode(codes.GET)
+		req.SetToken(tokenOf(k))
+		req.SetObserve(0)
+		if err := req.SetPath("/o"); err != nil {
+			panic(err)
+		}
+		ob, err := o.h.NewObservation(req, func(*pool.Message) {})
+		if err != nil {
+			// the token is taken: report the observation that holds it
+			if cur, ok := o.h.GetObservation(tokenOf(k).Hash()); ok {
+				return fmt.Sprintf("a=%d/true", o.idOf[cur])
+			}
+			return "a=0/true"
+		}
+		o.idOf[ob] = id
+		if o.first[k] == nil {
+			o.first[k] = ob
+		}
+		return fmt.Sprintf("a=%d/false", id)
+	case "cancel":
+		ob := o.first[k]
+		if ob == nil {
+			return "v=nil"
+		}
+		before := o.deregs
+		if err := ob.Cancel(context.Background()); err != nil {
+			return "v=err"
+		}
+		if o.deregs > before {
+			return fmt.Sprintf("v=%d", o.idOf[ob]) // this call removed the observation and deregistered it
+		}
+		return "v=nil"
+	case "has":
+		ob, ok := o.h.GetObservation(tokenOf(k).Hash())
+		if !ok {
+			return "v=nil"
+		}
+		return fmt.Sprintf("v=%d", o.idOf[ob])
+	}
+	panic("bad obstab op " + strings.Join(f, ":"))
 }
